@@ -264,6 +264,14 @@ pub fn cmp_misc<const N: usize>(ctx: &mut Ctx) {
                     if got != want {
                         viol(ctx, N, N, "partial_cmp_nan", format!("{:?} ? {:?}: {:?} expected {:?}", x, y, got, want));
                     }
+                    // an object compared with itself still follows the element-wise rule (NaN != NaN)
+                    #[allow(clippy::eq_op)]
+                    {
+                        let wself = x.as_slice() == x.as_slice();
+                        if (a == a) != wself || (a.partial_cmp(&a)) != x.as_slice().partial_cmp(x.as_slice()) {
+                            viol(ctx, N, N, "eq_self_nan", format!("{:?} == itself: {} expected {}", x, a == a, wself));
+                        }
+                    }
                     let weq = x.as_slice() == y.as_slice();
                     if (a == b) != weq || (a == y[..]) != weq {
                         viol(ctx, N, N, "eq_nan", format!("{:?} == {:?}: {} expected {}", x, y, a == b, weq));
